@@ -1,4 +1,7 @@
 //! E4 — exhaustive sweeps over scalar domains (C12, C14 runtime part, C15, C16).
+mod c12;
+mod c14;
+mod c15;
 mod c16;
 
 use vcommon::{Args, Report};
@@ -7,6 +10,9 @@ fn main() {
     let args = Args::parse();
     vcommon::quiet_panics();
     let report: Report = match args.property.as_str() {
+        "C12" => c12::run(&args),
+        "C14" => c14::run(&args),
+        "C15" => c15::run(&args),
         "C16" => c16::run(&args),
         other => panic!("sweeps: unknown property {}", other),
     };
